@@ -19,11 +19,14 @@ SHAPES = {
     'deep': ({'root': ['a', 'x'], 'a': ['b'], 'b': ['c'], 'x': ['c'], 'c': []}, ['root'], {}),
     'fan3': ({'root': ['a', 'b', 'c'], 'a': [], 'b': [], 'c': []}, ['root'], {}),
     'multi': ({'root': ['m-p1', 'm-p2']}, ['root'], {}),          # two packages of one recipe share the checkout
+    # one package (indeterministic checkout) reached under two different sandboxes: one workspace, two cook tasks
+    'twosbx': ({'root': ['a', 'b'], 'a': ['lib'], 'b': ['lib'], 'lib': [], 's1': [], 's2': []}, ['root'], {}, {'a': 's1', 'b': 's2'}),
 }
 
 
 def write_project(d, shape):
-    recipes, roots, tools = SHAPES[shape]
+    recipes, roots, tools = SHAPES[shape][:3]
+    sandboxes = SHAPES[shape][3] if len(SHAPES[shape]) > 3 else {}
     os.makedirs(os.path.join(d, 'recipes'))
     with open(os.path.join(d, 'config.yaml'), 'w') as f:
         f.write('bobMinimumVersion: "0.25"\n')
@@ -31,15 +34,19 @@ def write_project(d, shape):
         lines = []
         if name in roots: lines.append('root: True')
         dl = []
+        if name in sandboxes:
+            dl.append('    - name: %s\n      use: [sandbox]\n      forward: True' % sandboxes[name])
         for dep in deps:
             dl.append('    - %s' % dep)
         if name in tools:
             dl.append('    - name: %s\n      use: [tools]' % tools[name])
             lines.append('buildTools: [tt]')
         if dl: lines.append('depends:\n' + '\n'.join(dl))
-        lines.append('checkoutDeterministic: True')
-        lines.append('checkoutScript: |\n    echo src-%s > src.txt' % name)
-        lines.append('buildScript: |\n    echo build-%s > out.txt' % name)
+        lean = len(SHAPES[shape]) > 3          # lean shapes: only `lib` has a checkout, the sandbox images have no build script (keeps the schedule space small)
+        if not name.startswith('lib'): lines.append('checkoutDeterministic: True')
+        if name in sandboxes.values(): lines.append('provideSandbox:\n    paths: ["/bin"]')
+        if not lean or name.startswith('lib'): lines.append('checkoutScript: |\n    echo src-%s > src.txt' % name)
+        if not lean or name not in sandboxes.values(): lines.append('buildScript: |\n    echo build-%s > out.txt' % name)
         lines.append('packageScript: |\n    echo pkg-%s > pkg.txt' % name)
         if name == 't':
             lines.append('provideTools:\n    tt: "."')
@@ -130,12 +137,18 @@ class BuilderWorld(e3.World):
             if a.isValid() and a.getPackage() != pkg: need.append(a)
         for t in step.getTools().values():
             need.append(t.getStep())
+        if step.getSandbox() is not None:
+            need.append(step.getSandbox().getStep())
         for n in need:
             nn = '/'.join(n.getPackage().getStack()) + ':' + n.getLabel()
             # the same workspace may have been produced under another stack name (identical package on two paths)
             if not any(e[0] == 'end' and e[2] == n.getWorkspacePath() for e in self.events):
                 self.problems.append(('started-before-dependency-finished', '%s started although %s has not finished successfully' % (name, nn)))
-        # M4 failure confinement
+        # M4 failure confinement: once the builder has taken notice of a failure (it cleared its running flag) and does not
+        # keep going, no further step may be started
+        b = getattr(self, 'builder', None)
+        if b is not None and not self.keepgoing and self.failed_at is not None and getattr(b, '_LocalBuilder__running', True) is False:
+            self.problems.append(('start-after-failure:builder-stopped', '%s started although the builder had already stopped because of the failure of %s' % (name, self.fail)))
         if self.failed_at is not None:
             if not self.keepgoing:
                 if self.fail_seen_boundary is not None and len(self.exec.choices) > self.fail_seen_boundary:
@@ -203,9 +216,10 @@ def one_execution(w, loop):
         nameFormatter = recipes.getHook('developNameFormatter')
         persister = DevelopDirOracle(nameFormatter, recipes.getHook('developNamePersister'))
         nameFormatter = bb.LocalBuilder.makeRunnable(persister.getFormatter())
-        packages = recipes.generatePackages(nameFormatter, False, False)
+        packages = recipes.generatePackages(nameFormatter, len(SHAPES[w.shape]) > 3, False)
         persister.prime(packages)
         builder = bb.LocalBuilder(-2, False, False, False, False, recipes.envWhiteList(), '/repo/bob', False, True)
+        w.builder = builder
         builder.setJobserverConfig(JobserverConfig(w.jobs))
         builder.setKeepGoing(w.keepgoing)
         builder.setAudit(True)
@@ -332,8 +346,8 @@ def all_steps(shape):
 def keepgoing_expect(shape, fail):
     """(must, forbidden): with keep-going every step of a root that does not depend on the failing
     package must complete; steps that depend on the failing step must never start."""
-    recipes, roots, tools = SHAPES[shape]
-    if shape == 'multi': return set(), set()
+    recipes, roots, tools = SHAPES[shape][:3]
+    if shape in ('multi', 'twosbx'): return set(), set()
     fpkg, flabel = fail.split(':')[0].split('/')[-1], fail.split(':')[1]
     dep = {n: set(d) | ({tools[n]} if n in tools else set()) for n, d in recipes.items()}
 
@@ -372,8 +386,10 @@ def run_all(ctx, quick):
             jobs.append((shape, 3, False, None, 0, big))
         for shape in ('chain', 'multi', 'tool'):
             jobs.append((shape, 2, False, None, 1, big))
+        jobs.append(('twosbx', 2, False, None, 1, big)); jobs.append(('twosbx', 3, False, None, 0, big))
         fails = {'chain': ['b:build', 'a:src', 'a:dist'], 'diamond': ['c:build', 'a:build', 'b:dist'],
-                 'tworoots': ['d:build', 'c:build'], 'tool': ['t:dist'], 'multi': ['m-p1:src', 'm-p1:build']}
+                 'tworoots': ['d:build', 'c:build'], 'tool': ['t:dist'], 'multi': ['m-p1:src', 'm-p1:build'],
+                 'fan3': ['c:build', 'b:src']}     # more runnable branches than job slots: steps queue for a slot while another one fails
         for shape, fl in fails.items():
             steps = sorted({short(x) for x in all_steps(shape)})
             for f in fl:
